@@ -202,6 +202,37 @@ func runC20(c *CaseCtx) {
 			}
 		}
 	}
+	if c.Case%8 == 3 && cfg.Mode == 0 {
+		// a list-heavy history (pushes, LSet, pops, LRem, LTrim) over several segments, then Merge: whatever Merge makes
+		// of lists (a recorded finding of C15), it must not panic
+		gl := &Gen{R: r, U: u, Cfg: cfg, List: true, MaxOps: 2, M: g.M}
+		for i := 0; i < 40; i++ {
+			t := gl.WriteTx(false)
+			out := execTx(db, t)
+			if out.Committed {
+				for j, o := range t.Ops {
+					g.M.Apply(o, out.Res[j])
+				}
+			}
+			if i%10 == 9 {
+				func() {
+					defer func() {
+						if p := recover(); p != nil {
+							st := string(debug.Stack())
+							c.Violate("panic:Merge:"+panicClass(p)+" @"+firstRepoFrame(st), "api-fuzz", fmt.Sprintf("Merge after a list history panicked: %v\n%s", p, firstN(st, 1200)))
+						}
+					}()
+					c.Log("db.Merge() after a list history")
+					if db.Merge() == nil {
+						cov["Merge/db/ok"]++
+					}
+				}()
+				if c.Violated() {
+					return
+				}
+			}
+		}
+	}
 	ms := txMethods()
 	rounds := tier(c.Tier, 40, 120)
 	locked := false // a panic inside Commit leaves the lock held: stop using this handle
